@@ -128,6 +128,7 @@ class Sim:
         self.seq = 0
         self.heap = []              # (time, seq, fn)
         self.threads = []           # SimThreadState in creation order
+        self.live = []              # the same without finished threads (scanned by the scheduler)
         self.by_ident = {}
         self.current = None
         self.in_kernel = False
@@ -189,6 +190,7 @@ class Sim:
     def new_thread(self, name, obj):
         ts = SimThreadState(len(self.threads), name, obj)
         self.threads.append(ts)
+        self.live.append(ts)
         return ts
 
     def start_thread(self, ts, fn):
@@ -224,6 +226,10 @@ class Sim:
         if self.over:
             return
         ts.state = DONE
+        try:
+            self.live.remove(ts)
+        except ValueError:
+            pass
         self.log('thread-exit', ts.name)
         self.wake_all(ts.done_waiters)
         if ts is self.main:
@@ -350,7 +356,7 @@ class Sim:
                 self._finish('harness', 'step cap reached (steps=%d, no-progress=%d) at t=%.6f'
                              % (self.steps, self.steps_no_progress, self.now))
                 continue
-            runnable = [t for t in self.threads if t.state == RUNNABLE]
+            runnable = [t for t in self.live if t.state == RUNNABLE]
             if not runnable:
                 if not self.heap:
                     self._finish('deadlock', self.describe_threads())
